@@ -34,6 +34,18 @@ ExtStepChecks(k, e, s, t) ==
                                THEN ~(\/ (Bal(t, "zero", d) = Zero /\ DSupply(s, t, d) = Zero -- Bal(s, "zero", d))
                                       \/ Bal(t, "zero", d) = Bal(s, "zero", d))
                                ELSE Bal(t, "zero", d) \prec Bal(s, "zero", d)}
+      \* masterchef's accumulator scheme as a deterministic specification (hooks_masterchef.go; MC_rewards is its small model):
+      \* a reward record written by a step that does not distribute is checkpointed against the CURRENT accumulator,
+      \*     debt' = acc * balance',   pending' = pending + (acc * balance - debt) / 1e18   (or 0 when the step may pay it out)
+      rkeys == {x \in RewardKeys(s) \cup RewardKeys(t) : UserKey(x[1], x[2], x[3]) \in DOMAIN t.mc.user}
+      touched == {x \in rkeys : LET uk == UserKey(x[1], x[2], x[3]) IN uk \notin DOMAIN s.mc.user \/ s.mc.user[uk] # t.mc.user[uk]}
+      pays == k = "Begin" \/ e.name \in {"masterchef.MsgClaimRewards", "leveragelp.MsgClaimRewards", "leveragelp.MsgClose", "leveragelp.MsgClosePositions", "leveragelp.MsgOpen"}
+      Exp(x) == PendingM(s, x[1], x[2], x[3]) ++ (((AccM(s, x[1], x[2]) ** Committed(s, x[3], RewardShareDenom(s, x[1]))) -- DebtM(s, x[1], x[2], x[3])) // E18)
+      badCp == {x \in touched : ~(/\ DebtM(t, x[1], x[2], x[3]) = AccM(t, x[1], x[2]) ** Committed(t, x[3], RewardShareDenom(t, x[1]))
+                                   /\ (PendingM(t, x[1], x[2], x[3]) = Exp(x) \/ (pays /\ PendingM(t, x[1], x[2], x[3]) = Zero)))}
   IN { Chk("EXT", "EXT.epochs.clock_ticks_exactly_one_epoch_per_due_block", ids # {}, badClock = {}, Bad(badClock)),
        Chk("EXT", "EXT.burner.burns_exactly_the_zero_address_holdings_at_its_epoch_end", ds # {}, badBurn = {}, Bad(badBurn)) }
+     \cup (IF k \in {"Tx", "Begin"} THEN
+            { Chk("EXT", "EXT.rewards.touched_record_is_checkpointed_against_the_current_accumulator", touched # {}, badCp = {}, Bad(badCp)) }
+          ELSE {})
 =============================================================================
